@@ -89,6 +89,7 @@ type Interp struct {
 
 	globals   map[*ssa.Global]*Value
 	inited    map[*ssa.Package]bool
+	pools     map[*Value][]Value // sync.Pool contents (LIFO), keyed by the pool's address
 	initDepth int
 	undo      []undoRec
 
